@@ -69,11 +69,14 @@ func scenarioStart(c *hlib.RunCtx) *hlib.Violation {
 	// or 25 hours long, the token period is 24 hours all the same.
 	var dst *time.Location
 	if t.Bool(1, 5) {
-		if l, err := time.LoadLocation([]string{"America/New_York", "Europe/Berlin"}[t.Draw(2)]); err == nil {
+		// (the draws do not depend on whether this host has the zone data: a tape
+		// means the same run everywhere, with or without the zone)
+		name := []string{"America/New_York", "Europe/Berlin"}[t.Draw(2)]
+		change := []time.Time{time.Date(2024, 3, 10, 7, 0, 0, 0, time.UTC), time.Date(2024, 11, 3, 6, 0, 0, 0, time.UTC),
+			time.Date(2024, 3, 31, 1, 0, 0, 0, time.UTC), time.Date(2024, 10, 27, 1, 0, 0, 0, time.UTC)}[t.Draw(4)]
+		start = change.Add(time.Duration(t.Draw(30*60)) * time.Minute)
+		if l, err := time.LoadLocation(name); err == nil {
 			dst = l
-			change := []time.Time{time.Date(2024, 3, 10, 7, 0, 0, 0, time.UTC), time.Date(2024, 11, 3, 6, 0, 0, 0, time.UTC),
-				time.Date(2024, 3, 31, 1, 0, 0, 0, time.UTC), time.Date(2024, 10, 27, 1, 0, 0, 0, time.UTC)}[t.Draw(4)]
-			start = change.Add(time.Duration(t.Draw(30*60)) * time.Minute)
 		}
 	}
 	s := simrt.New(t, c.Dir, start)
